@@ -12,6 +12,7 @@ pub mod c11;
 pub mod refastro;
 pub mod e2e;
 pub mod e2e2;
+pub mod angles;
 
 pub struct Report {
     pub name: String,
@@ -91,6 +92,7 @@ pub fn main() {
         "c20_zones" => e2e::c20_zones(&args),
         "c16_qibla" => e2e::c16_qibla(&args),
         "c09_neargood" => e2e::c09_neargood(&args),
+        "c01_angles" => angles::angles(&args),
         "c07_e2e" => e2e2::c07_e2e(&args),
         "c08_e2e" => e2e2::c08_e2e(&args),
         "c10_formulas" => e2e2::c10_formulas(&args),
